@@ -4,6 +4,7 @@ package main
 // packages, conversions between kyber scalars and big.Int, model-line rendering.
 
 import (
+	"encoding/binary"
 	"fmt"
 	"math/big"
 	"strings"
@@ -62,11 +63,17 @@ type mdeal struct {
 	cpts   []kyber.Point
 	clogs  []*big.Int // model logarithms of cpts (surrogate homomorphic image on real groups)
 	nilSec bool
+	// csid: the session identifier the deal's content yields when it differs from the announced one
+	// (an equivocating dealer); nil = the deal announces its own identifier
+	csid []byte
 }
 
 func (d *mdeal) clone() *mdeal {
 	c := *d
 	c.sid = append([]byte{}, d.sid...)
+	if d.csid != nil {
+		c.csid = append([]byte{}, d.csid...)
+	}
 	if d.v != nil {
 		c.v = new(big.Int).Set(d.v)
 	}
@@ -104,7 +111,11 @@ func (d *mdeal) line(st *sidTable) string {
 	if rv == nil {
 		rv = z
 	}
-	return fmt.Sprintf("%s/%x/%s/%x/%s/%x/%s", st.tok(d.sid), d.i, kc.HexN(v), d.ri, kc.HexN(rv), d.t, kc.HexNList(d.clogs))
+	line := fmt.Sprintf("%s/%x/%s/%x/%s/%x/%s", st.tok(d.sid), d.i, kc.HexN(v), d.ri, kc.HexN(rv), d.t, kc.HexNList(d.clogs))
+	if d.csid != nil {
+		line += "/" + st.tok(d.csid)
+	}
+	return line
 }
 
 func b01(b bool) string {
@@ -214,6 +225,9 @@ type vssBackend interface {
 	plain(i int) *mdeal              // the honest dealer's plaintext deal for i with its model view
 	secret() *big.Int                // the honest dealer's secret
 	dealerSID() []byte
+	// contentSID: the session identifier the deal's content yields (dealer key, verifier keys, commitments, t),
+	// computed as share/vss/*: sessionID does
+	contentSID(d *mdeal) []byte
 	encHonest(i int) (any, error)    // real EncryptedDeal(i)
 	encFor(i int, d *mdeal) (any, error) // hook: arbitrary deal through the real encryption path
 	encRaw(i int, pt []byte) (any, error)
@@ -245,4 +259,18 @@ func coarse(out string) string {
 		return "err"
 	}
 	return out
+}
+
+// vssContentSID mirrors share/vss/{pedersen,rabin}: sessionID.
+func vssContentSID(suite vssSuite, dealer kyber.Point, verifiers []kyber.Point, d *mdeal) []byte {
+	h := suite.Hash()
+	_, _ = dealer.MarshalTo(h)
+	for _, v := range verifiers {
+		_, _ = v.MarshalTo(h)
+	}
+	for _, c := range d.cpts {
+		_, _ = c.MarshalTo(h)
+	}
+	_ = binary.Write(h, binary.LittleEndian, d.t)
+	return h.Sum(nil)
 }
